@@ -4,7 +4,7 @@
    against the model [doc]; every $ref must resolve inside the document; the
    bytes must not depend on registration order or on the run; and what the
    document shows must be what the router serves. *)
-From DS Require Import Base Versions Router RouterSpec RouterProofs OpenApiGen.
+From DS Require Import Base Versions Router RouterSpec RouterProofs OpenApiGen RefClosure.
 
 Definition V_AGREE : N := 0.
 Definition V_VIOLATION : N := 1.
@@ -18,7 +18,11 @@ Inductive dobs :=
 | DPanic.
 
 Inductive dcase :=
-| CDoc (eps : list (str * ep)) (obs : list dobs) (found : list (list (option str))).
+| CDoc (eps : list (str * ep)) (obs : list dobs) (found : list (list (option str)))
+  (* the definitions gathered for a parameter schema (ReferenceVisitor):
+     definition graph, the references of the schema itself, and the keys found
+     under components.schemas (None: the real code panicked) *)
+| CDeps (dfs : list (str * list str)) (roots : list str) (keys : option (list str)).
 
 Fixpoint parse_all (eps : list (str * ep)) : option (list (decl N)) :=
   match eps with
@@ -88,8 +92,23 @@ Definition worse (a b : N) : N :=
   let rank c := if c =? 9 then 5 else if c =? 1 then 4 else if c =? 2 then 3 else if c =? 0 then 0 else 1 in
   if rank a <? rank b then b else a.
 
+Definition same_set (a b : list str) : bool :=
+  forallb (fun x => mem_str x b) a && forallb (fun x => mem_str x a) b.
+
 Definition judge (c : dcase) : N :=
   match c with
+  | CDeps dfs roots keys =>
+      (* the property: every reference resolves inside the document — here:
+         whatever the parameter's schema reaches is among the components;
+         the model: exactly the reachable definitions are *)
+      match dependencies dfs roots, keys with
+      | Ok out, Some ks =>
+          if negb (forallb (fun x => mem_str x ks) out) then V_VIOLATION
+          else if same_set out ks then V_AGREE else V_DIVERGE
+      | Err (CE_invalid_ref _), None => V_AGREE
+      | Err CE_fuel, _ => V_MALFORMED
+      | _, _ => V_DIVERGE
+      end
   | CDoc eps obs found =>
       match parse_all eps with
       | None => V_MALFORMED
